@@ -33,6 +33,9 @@ def run(ctx):
     r11_2(ctx, rep, roles)
     r11_3(ctx, rep, roles)
     r11_5(ctx, rep, roles)
+    from .. import wrappers
+    wrappers.fd_glue(ctx, rep, roles, "C11", "R11.6")
+    wrappers.heartbeat_inc(ctx, rep, roles, "C11", "R11.7")
     r11_4(ctx, rep, roles)
 
 
